@@ -1157,6 +1157,79 @@ func c07GenThirdParty(c *Ctx) {
 	}
 }
 
+// third_party_invite blocks on every membership: the third-party-invite rule belongs to
+// membership invite only; on join / leave / ban / knock the block is just content and the event
+// is judged by the ordinary rules (join rule, ban, sender membership, power levels).
+// every membership x {no block, valid signed block, bad signature, 3pid event absent} x join rule
+// x previous membership of the target (incl. ban) x own / somebody else's membership
+func c07GenTpiBlocks(c *Ctx) {
+	n := 0
+	k1, k2 := c07NewKey(c.Rng), c07NewKey(c.Rng)
+	enc := base64.RawStdEncoding.EncodeToString
+	for _, ver := range c07Versions {
+		for _, nm := range []string{"join", "invite", "leave", "ban", "knock"} {
+			for _, self := range []bool{true, false} {
+				if self && (nm == "invite" || nm == "ban") || !self && (nm == "join" || nm == "knock") {
+					continue
+				}
+				senderMems := []string{"join"}
+				if !self {
+					senderMems = []string{"join", "leave"}
+				}
+				for _, sm := range senderMems {
+					for _, block := range []string{"none", "valid", "badsig", "absent"} {
+						jrs := []string{"public", "invite", "knock", "restricted"}
+						if !c.Thorough() {
+							// quick: the invite rule always, one of the other rules at random
+							jrs = []string{"invite", pick(c.Rng, []string{"public", "knock", "restricted"})}
+						}
+						for _, jr := range jrs {
+							for _, old := range c07Mems {
+								n++
+								sender, target := "@alice:hs1", "@bob:hs3"
+								if self {
+									target = sender
+								}
+								senderMem := sm
+								if self {
+									senderMem = old
+								}
+								s := c07NewScene(ver, fmt.Sprintf("k%d", n), sender, nil, J{"users": J{sender: 50}}, senderMem)
+								s.auths = append(s.auths, s.r.state("m.room.join_rules", s.creator, "", J{"join_rule": jr}))
+								if !self && old != "" {
+									s.auths = append(s.auths, s.r.member(target, target, c07MemContent(old)))
+								}
+								content := J{"membership": nm}
+								if block != "none" {
+									token := fmt.Sprintf("tk%d", n)
+									raw, _ := json.Marshal(J{"mxid": target, "token": token})
+									signKey := k1
+									if block == "badsig" {
+										signKey = k2
+									}
+									signedRaw, err := gm.SignJSON("idserver", "ed25519:1", signKey.priv, raw)
+									if err != nil {
+										panic(err)
+									}
+									var signed J
+									_ = json.Unmarshal(signedRaw, &signed)
+									content["third_party_invite"] = J{"display_name": "b", "signed": signed}
+									if block != "absent" {
+										s.auths = append(s.auths, s.r.state("m.room.third_party_invite", sender, token,
+											J{"display_name": "b", "public_keys": []interface{}{J{"public_key": enc(k1.pub)}}}))
+									}
+								}
+								ev := s.r.event(s.r.eventID("e"), "m.room.member", sender, sp(target), content, []string{s.r.eventID("p")}, nil)
+								s.run(c, ev, "tpi-block/"+nm+"/"+block, fmt.Sprintf("self=%v sender=%s jr=%s old=%q", self, sm, jr, old))
+							}
+						}
+					}
+				}
+			}
+		}
+	}
+}
+
 // ---------------------------------------------------------------------------------------------
 // malformed and unusual contents of the event and of its auth events
 
@@ -1456,6 +1529,7 @@ func c07All(c *Ctx) {
 	c07GenAliases(c)
 	c07GenRedaction(c)
 	c07GenThirdParty(c)
+	c07GenTpiBlocks(c)
 	c07GenMalformed(c)
 	c07GenRandom(c, c.Scale(1500, 30000))
 	e := &c08Env{c: c, propOp: c07PropOp}
